@@ -20,6 +20,9 @@
 #include <iv_event.h>
 #include <iv_event_raw.h>
 #include <iv_signal.h>
+#include <iv_inotify.h>
+#include <sys/stat.h>
+#include <fcntl.h>
 #include "mc.h"
 #include "env.h"
 #include "mcsched.h"
@@ -30,14 +33,28 @@ struct loopctx {
 	struct iv_event_raw raw;
 	struct iv_signal sig;
 	struct iv_timer tm;
+	struct iv_inotify ino;
+	struct iv_inotify_watch watch;
+	char dir[200];
+	int ino_events;
 	int handled;
 };
 static struct loopctx L[2];
-static int cycles, with_sig, sigflags[2];
+static int cycles, with_sig, with_ino, sigflags[2];
 
 static void ev_cb(void *c) { ((struct loopctx *)c)->handled++; }
 static void raw_cb(void *c) { (void)c; }
 static void sig_cb(void *c) { (void)c; }
+
+static void ino_cb(void *_c, struct inotify_event *ev)
+{
+	struct loopctx *c = _c;
+	if (ev->wd != c->watch.wd)
+		mc_fail("inotify-route", "thread %d: watch handler got an event for wd %d, its own wd is %d", c->id, ev->wd, c->watch.wd);
+	if (ev->len && strncmp(ev->name, c->id ? "file1" : "file0", 5))
+		mc_fail("inotify-route", "thread %d: watch handler got an event named '%s' that belongs to the other thread's directory", c->id, ev->name);
+	c->ino_events++;
+}
 
 static void tm_cb(void *_c)
 {
@@ -48,6 +65,12 @@ static void tm_cb(void *_c)
 	iv_event_raw_unregister(&c->raw);
 	if (with_sig)
 		iv_signal_unregister(&c->sig);
+	if (with_ino) {
+		if (c->ino_events < 1)
+			mc_fail("inotify-lost", "thread %d: no inotify event delivered for the file created in its watched directory", c->id);
+		iv_inotify_watch_unregister(&c->watch);
+		iv_inotify_unregister(&c->ino);
+	}
 }
 
 static void body(void *_c)
@@ -72,6 +95,28 @@ static void body(void *_c)
 			c->sig.cookie = c;
 			c->sig.handler = sig_cb;
 			iv_signal_register(&c->sig);
+		}
+		if (with_ino) {
+			char f[260];
+			int fd;
+			c->ino_events = 0;
+			IV_INOTIFY_INIT(&c->ino);
+			if (iv_inotify_register(&c->ino) != 0)
+				mc_fail("try-failed", "iv_inotify_register failed");
+			IV_INOTIFY_WATCH_INIT(&c->watch);
+			c->watch.inotify = &c->ino;
+			c->watch.pathname = c->dir;
+			c->watch.mask = IN_CREATE | IN_MODIFY | IN_CLOSE_WRITE;
+			c->watch.cookie = c;
+			c->watch.handler = ino_cb;
+			if (iv_inotify_watch_register(&c->watch) != 0)
+				mc_fail("try-failed", "iv_inotify_watch_register failed");
+			snprintf(f, sizeof(f), "%s/file%d", c->dir, c->id);
+			fd = open(f, O_WRONLY | O_CREAT | O_TRUNC, 0644);
+			if (fd >= 0) {
+				if (write(fd, "x", 1) != 1) {}
+				close(fd);
+			}
 		}
 		iv_event_post(&c->ev);
 		IV_TIMER_INIT(&c->tm);
@@ -101,6 +146,14 @@ static void exec_one(void)
 	sched_max_points = mc_arg_int("maxpoints", 6000);
 	cycles = mc_arg_int("cycles", 2);
 	with_sig = mc_arg_int("sig", 1);
+	with_ino = mc_arg_int("ino", 0);
+	if (with_ino) {
+		int k;
+		for (k = 0; k < 2; k++) {
+			snprintf(L[k].dir, sizeof(L[k].dir), "%s/lmt%d", mc_scratch(), k);
+			mkdir(L[k].dir, 0755);
+		}
+	}
 	method = mc_choose(4, MC_CONFIG, "method");
 	{
 		static const int fl[3] = { 0, IV_SIGNAL_FLAG_THIS_THREAD, IV_SIGNAL_FLAG_EXCLUSIVE };
